@@ -414,11 +414,11 @@ func (x *vtx) c17r2() {
 				}
 				// cursorX+1: followed by `cursorX > viewportWidth` whose true side calls lf(true)
 				isTest := func(k int) bool {
-					ifi, ok := g.Ins[k].(*ssa.If)
+					_, ok := g.Ins[k].(*ssa.If)
 					if !ok {
 						return false
 					}
-					f, ok := condFact(ifi.Cond, true)
+					f, ok := condFact(g.Cond(k), true)
 					return ok && cmpMatch(f, token.GTR, x.fld(x.cursorX), x.fld(x.viewportWidth))
 				}
 				ret := isRet(g)
@@ -637,12 +637,12 @@ func runC18(c *Ctx) {
 	c.floor("C18.R1", 3)
 	ttyPkg := m.pkg("device/tty")
 	seq := map[string]int{}
-	for _, fn := range m.Funcs {
+	for _, fn := range m.scanFuncs() {
 		if fn.Pkg != ttyPkg {
 			continue
 		}
 		var g *IG
-		for _, b := range fn.Blocks {
+		for _, b := range m.blocksOf(fn) {
 			for _, in := range b.Instrs {
 				cc := callCommon(in)
 				if cc == nil || !cc.IsInvoke() || !mutating[cc.Method.Name()] {
@@ -653,7 +653,7 @@ func runC18(c *Ctx) {
 				}
 				c.Evals++
 				if g == nil {
-					g = newIG(m, fn, nil)
+					g = scanIG(m, fn, nil)
 				}
 				key := fmt.Sprintf("console-call %s.%s #%d", m.fnName(fn), cc.Method.Name(), seq[m.fnName(fn)+cc.Method.Name()])
 				seq[m.fnName(fn)+cc.Method.Name()]++
@@ -766,11 +766,11 @@ func (x *vtx) c18r2() {
 		// every data store must have passed the active test
 		for _, d := range dstores {
 			isTest := func(n int) bool {
-				ifi, ok := g.Ins[n].(*ssa.If)
+				_, ok := g.Ins[n].(*ssa.If)
 				if !ok {
 					return false
 				}
-				f, ok := condFact(ifi.Cond, true)
+				f, ok := condFact(g.Cond(n), true)
 				return ok && (x.activeFact(f, true) || x.activeFact(f, false))
 			}
 			if ok, _ := g.MustPassBefore(d.n, isTest); !ok {
@@ -806,11 +806,11 @@ func (x *vtx) c18r2() {
 	gl := newIG(m, x.lf, nil)
 	ret := isRet(gl)
 	isTest := func(n int) bool {
-		ifi, ok := gl.Ins[n].(*ssa.If)
+		_, ok := gl.Ins[n].(*ssa.If)
 		if !ok {
 			return false
 		}
-		f, ok := condFact(ifi.Cond, true)
+		f, ok := condFact(gl.Cond(n), true)
 		return ok && x.activeFact(f, true)
 	}
 	// every buffer / viewport change reaches the active test
